@@ -298,7 +298,8 @@ theorem linf_bias_prox_real {ε : ℝ} (hε : 0 ≤ ε) (y b : Vec ι ℝ) :
         (softThresh (linfProjBiasArgLam ε) (linfProjBiasArgIn (y i) (b i)) |linfProjBiasArgIn (y i) (b i)|))
       = (vec fun i => linfProjOut ((y - b) i)
           (softThresh (linfProjArgLam ε) (linfProjArgIn ((y - b) i)) |linfProjArgIn ((y - b) i)|)) + b := by
-    ext i; simp [linfProjBiasOut, linfProjBiasArgIn, linfProjBiasArgLam, linfProjOut, linfProjArgIn, linfProjArgLam]
+    -- robust to the order in which the bias is added back (`output + bias` / `bias + output`)
+    ext i; simp [linfProjBiasOut, linfProjBiasArgIn, linfProjBiasArgLam, linfProjOut, linfProjArgIn, linfProjArgLam] <;> ring
   rw [e]
   simpa using this
 
@@ -361,7 +362,7 @@ theorem conj_moreau {C D : Set (Vec ι ℝ)} {g gs : Vec ι ℝ → ℝ} (hc : I
   have e1 : (vec fun i => conjArgIn α (x i)) = (1 / α) • x := by
     ext i; simp [conjArgIn]; ring
   have e2 : (vec fun i => conjOut α (x i) (p i)) = x - α • p := by
-    ext i; simp [conjOut]
+    ext i; simp [conjOut] <;> ring   -- `alpha * inner` / `inner * alpha`
   rw [e2]
   apply moreau hc hα x p
   rw [← e1]; exact hp
